@@ -229,6 +229,11 @@ template< typename T, typename E>
          "included argument is not single argument");
 
    int          argi = include_myself ? mCurrElement.mArgIndex : mArgIndex;
+
+   // nothing follows the current argument: argv[ argc] is the null pointer
+   if (argi >= mArgC)
+      return std::string();
+
    std::string  remaining( mpArgV[ argi++]);
 
    for (; argi < mArgC; ++argi)
